@@ -18,6 +18,7 @@ import itertools
 DEFAULT_FEAT = dict(
     subtypes=True, constants=True, neg=True, equality=True, numeric=True, when=True, forall_eff=True,
     or_pre=False, forall_pre=False,          # D2 / D3 finding profiles
+    cond_numeric=True,                       # numeric comparisons inside when/forall conditions
     child_first_types=False,                 # D10 finding profile
     repeated_call_objects=True,
     max_types=4, max_preds=4, max_funcs=3, max_actions=3, max_params=3, max_objects=5,
@@ -182,9 +183,10 @@ def gen_simple_effects(t, D, scope, f, n):
 
 def gen_effects(t, D, params, f):
     effs = gen_simple_effects(t, D, params, f, t.draw(4))
+    fc = f if f.get("cond_numeric", True) else dict(f, numeric=False)
     if f["when"]:
         for _ in range(t.draw(3)):
-            c = [x for x in (gen_lit(t, D, params, f) for _ in range(1 + t.draw(2))) if x]
+            c = [x for x in (gen_lit(t, D, params, fc) for _ in range(1 + t.draw(2))) if x]
             e = gen_simple_effects(t, D, params, f, 1 + t.draw(2))
             if c and e:
                 effs.append(("when", ("and", c), e))
@@ -193,7 +195,7 @@ def gen_effects(t, D, params, f):
             ty = t.pick(list(D["types"]))
             v = "?u"
             sc = params + [(v, ty)]
-            c = [x for x in (gen_lit(t, D, sc, f) for _ in range(1 + t.draw(2))) if x]
+            c = [x for x in (gen_lit(t, D, sc, fc) for _ in range(1 + t.draw(2))) if x]
             e = gen_simple_effects(t, D, sc, f, 1 + t.draw(2))
             if c and e:
                 effs.append(("forall", v, ty, ("when", ("and", c), e)))
